@@ -103,6 +103,8 @@ def plan(tier, seed):
         sh.append(['laws3', lo, hi])
     for lo, hi in chunks(504, 12):
         sh.append(['routes3', lo, hi])
+    for lo, hi in chunks(148, 8):
+        sh.append(['edited', lo, hi])
     return sh
 
 
@@ -301,8 +303,50 @@ def routes(mc, acc, k, slice_noparser):
         agree(f, rs)
 
 
+EDIT_POOL = [('A', ('G', ('imp', Q, ('E', ('F', P))))), ('imp', Q, ('E', ('F', P))), ('E', ('F', P)), ('A', ('G', N(P))), ('A', ('F', Q)), ('E', ('G', P)), ('E', ('U', P, Q)), EX(P),
+             ('A', ('U', P, Q)), ('or', P, ('E', ('X', ('E', ('F', Q)))))]
+
+
+def edited_routes(k, acc, only_edit=None):
+    """query - edit through the public API - query on one live structure: after the edit the checkers must
+    still agree with each other on every formula (CTL, CTL* on native and CTL objects, LTL where it applies)."""
+    for edit_, k2 in spaces.k_edits(k):
+        if only_edit is not None and list(edit_) != list(only_edit):
+            continue
+        Kl = lib.to_kripke(k)
+        # the caller builds each formula object once and keeps using it for every query of the history
+        objs = dict((f, (lib.build(f, lib.CTL), lib.build(f, lib.CTLS),
+                         lib.build(f, lib.LTL) if members.ltl_state(f) else None)) for f in EDIT_POOL)
+        for rnd in (0, 1):
+            for f in EDIT_POOL:
+                o_ctl, o_ctls, o_ltl = objs[f]
+                others = [('CTLS<-CTLS obj', as_state_set(call(lib.CTLS.modelcheck, Kl, o_ctls))),
+                          ('CTLS<-CTL obj', as_state_set(call(lib.CTLS.modelcheck, Kl, o_ctl))),
+                          ('CTLS<-text', as_state_set(call(lib.CTLS.modelcheck, Kl, str(o_ctls), parser=parser('CTLS'))))]
+                a = as_state_set(call(lib.CTL.modelcheck, Kl, o_ctl))
+                if o_ltl is not None:
+                    others.append(('LTL<-LTL obj', as_state_set(call(lib.LTL.modelcheck, Kl, o_ltl))))
+                acc.ev(len(others), len(others) if (a[0] == 'set' and 0 < len(a[1]) < k.n) else 0)
+                for name, r in others:
+                    if a[0] != 'set' or r[0] != 'set' or frozenset(a[1]) != frozenset(r[1]):
+                        acc.violation('routes-disagree-after-edit',
+                                      kcase(k, f, route=name, other='CTL<-CTL obj', edit=list(edit_),
+                                            when='before the edit' if rnd == 0 else 'after the edit'), a, r)
+                        return
+            if rnd == 0:
+                spaces.apply_edit(Kl, edit_)
+
+
 def run_shard(shard, tier, seed, acc):
     kind = shard[0]
+    if kind == 'edited':
+        ks = (list(spaces.kripkes(1)) + list(spaces.kripkes(2)))[shard[1]:shard[2]]
+        for k in ks:
+            if deadline_passed():
+                acc.capped()
+                return
+            edited_routes(k, acc)
+        return
     if kind in ('laws', 'routes'):
         ks = (list(spaces.kripkes(1)) + list(spaces.kripkes(2)))[shard[1]:shard[2]]
         for i, k in enumerate(ks):
@@ -371,6 +415,9 @@ def replay(art):
     acc = Acc()
     Kl = lib.to_kripke(k)
     mc = MC(k, Kl, acc)
+    if art['kind'] == 'routes-disagree-after-edit':
+        edited_routes(k, acc, only_edit=c['edit'])
+        return {'violates': acc.d['nviol'] > 0, 'detail': acc.d['violations'][:1]}
     if art['kind'] in ('routes-disagree', 'route-exception'):
         if k.n <= 2:
             routes(mc, acc, k, True)
